@@ -23,9 +23,16 @@ import (
 
 const slack = 150 * time.Millisecond
 
-func runKA(h *lp.H, I, T int, delays []int) string {
+func runKA(h *lp.H, I, T int, delays []int) string { return runKAx(h, I, T, delays, false) }
+
+// runKAx with closeErr: Close of the transport reports an error although it closes (a dead peer does not answer a close
+// handshake); detection and recovery must not depend on what Close returns
+func runKAx(h *lp.H, I, T int, delays []int, closeErr bool) string {
 	b := broker.New()
 	b.Auto["ping"] = false
+	if closeErr {
+		b.FirstCloseErr = fmt.Errorf("failed to close the transport: the peer did not answer the close handshake")
+	}
 	b.Register()
 	var mu sync.Mutex
 	pingIdx := 0
@@ -329,6 +336,109 @@ func wireBurst(h *lp.H, n int) string {
 	}
 }
 
+// appTraffic: concurrent application traffic must not cost a live connection. The broker answers every ping at once.
+// kind "abandon": a metadata request whose caller gives up after 40 ms is answered after 130 ms, then another one likewise;
+// kind "refused": metadata requests are refused with a result code. In both cases the client must keep the connection (no
+// disconnected event, one dial) through the following keepalive rounds, and a later request must still be served.
+func appTraffic(h *lp.H, kind string) string {
+	b := broker.New()
+	I, T := 100, 160
+	var mu sync.Mutex
+	mode := kind
+	b.Policy = func(inc *broker.Inc, m message.Message) bool {
+		r, ok := m.(*message.UpstreamMetadata)
+		if !ok {
+			return false
+		}
+		mu.Lock()
+		md := mode
+		mu.Unlock()
+		switch md {
+		case "abandon":
+			go func() {
+				time.Sleep(130 * time.Millisecond)
+				inc.Send(&message.UpstreamMetadataAck{RequestID: r.RequestID, ResultCode: message.ResultCodeSucceeded, ExtensionFields: &message.UpstreamMetadataAckExtensionFields{}})
+			}()
+			return true
+		case "refused":
+			inc.Send(&message.UpstreamMetadataAck{RequestID: r.RequestID, ResultCode: message.ResultCodeUnspecifiedError, ResultString: "refused", ExtensionFields: &message.UpstreamMetadataAckExtensionFields{}})
+			return true
+		}
+		return false
+	}
+	b.Register()
+	disc := make(chan struct{}, 64)
+	conn, err := iscp.Connect("mem", broker.TransportName, iscp.WithConnPingInterval(time.Duration(I)*time.Millisecond), iscp.WithConnPingTimeout(time.Duration(T)*time.Millisecond),
+		iscp.WithConnDisconnectedEventHandler(iscp.DisconnectedEventHandlerFunc(func(*iscp.DisconnectedEvent) {
+			select {
+			case disc <- struct{}{}:
+			default:
+			}
+		})))
+	if err != nil {
+		return "err connect"
+	}
+	defer func() {
+		ctx, cancel := context.WithTimeout(context.Background(), 300*time.Millisecond)
+		conn.Close(ctx)
+		cancel()
+	}()
+	for k := 0; k < 2; k++ {
+		ctx, cancel := context.WithTimeout(context.Background(), 40*time.Millisecond)
+		if kind == "refused" {
+			cancel()
+			ctx, cancel = context.WithTimeout(context.Background(), time.Second)
+		}
+		t0 := time.Now()
+		err := conn.SendBaseTime(ctx, &message.BaseTime{Name: "app", BaseTime: time.Unix(1700000000, 0)})
+		cancel()
+		if kind == "refused" && (err == nil || time.Since(t0) > 500*time.Millisecond) {
+			h.Violate(fmt.Sprintf("a metadata request the broker refuses with a result code returned %v after %v (the refusal should be reported at once)", err, time.Since(t0).Round(time.Millisecond)))
+		}
+		time.Sleep(150 * time.Millisecond)
+	}
+	gaveUp := func(when string) bool {
+		select {
+		case <-disc:
+			b.Lock()
+			dials := b.Dials
+			b.Unlock()
+			h.Violate(fmt.Sprintf("application traffic (%s metadata requests) cost a live connection %s: the client reported a disconnection although the broker answers every ping at once (dials so far: %d)", kind, when, dials))
+			return true
+		default:
+			return false
+		}
+	}
+	if gaveUp("during the requests") {
+		return "closed"
+	}
+	select {
+	case <-disc:
+		disc <- struct{}{}
+		gaveUp("in the keepalive rounds that followed")
+		return "closed"
+	case <-time.After(time.Duration(4*(I+T)) * time.Millisecond):
+	}
+	b.Lock()
+	dials := b.Dials
+	b.Unlock()
+	if dials != 1 {
+		h.Violate(fmt.Sprintf("application traffic (%s metadata requests): the client dialled %d times although the broker answers every ping at once", kind, dials))
+		return "closed"
+	}
+	// the connection still serves requests
+	mu.Lock()
+	mode = "serve"
+	mu.Unlock()
+	ctx, cancel := context.WithTimeout(context.Background(), time.Second)
+	defer cancel()
+	if err := conn.SendBaseTime(ctx, &message.BaseTime{Name: "after", BaseTime: time.Unix(1700000001, 0)}); err != nil {
+		h.Violate(fmt.Sprintf("after %s metadata requests a later request on the live connection fails: %v", kind, err))
+		return "closed"
+	}
+	return "alive"
+}
+
 // pingBurst: n pings from the broker while it is momentarily not reading; every one must be answered with its id
 func pingBurst(h *lp.H, n int) string {
 	b := broker.New()
@@ -406,6 +516,23 @@ func main() {
 				}
 			}
 			out = runKA(h, I, T, ds)
+		case "runce", "apptraffic":
+			if w[0] == "apptraffic" {
+				out = appTraffic(h, w[1])
+				break
+			}
+			I, _ := strconv.Atoi(w[1])
+			T, _ := strconv.Atoi(w[2])
+			var ds []int
+			for _, s := range strings.Split(w[3], ",") {
+				if s == "x" {
+					ds = append(ds, -1)
+				} else {
+					v, _ := strconv.Atoi(s)
+					ds = append(ds, v)
+				}
+			}
+			out = runKAx(h, I, T, ds, true)
 		case "announce":
 			ms, _ := strconv.Atoi(w[1])
 			out = announce(h, ms)
@@ -495,6 +622,16 @@ func main() {
 	h.Case("chunk burst, wire level")
 	do("wireburst 1100")
 	h.Distinct("wireburst")
+	for _, k := range []string{"abandon", "refused"} {
+		h.Case("application traffic: " + k)
+		do("apptraffic " + k)
+		h.Distinct("apptraffic/" + k)
+	}
+	for c, ds := range []string{"x", "0,x", "0,30,240"} {
+		h.Case(fmt.Sprintf("dead peer, Close of the transport reports an error %d", c))
+		do("runce 100 160 " + ds)
+		h.Distinct("runce/" + ds)
+	}
 	h.Case("ping burst")
 	do("pingburst 14")
 	h.Distinct("pingburst")
